@@ -18,6 +18,7 @@ import (
 	"fmt"
 	"net/url"
 	"regexp"
+	"strings"
 
 	"github.com/oxia-db/oxia/common/compare"
 	"github.com/oxia-db/oxia/common/constant"
@@ -342,14 +343,26 @@ func doSecondaryGet(db kv.DB, req *proto.GetRequest) (primaryKey string, seconda
 
 	defer func() { _ = it.Close() }()
 
-	if req.ComparisonType == proto.KeyComparisonType_LOWER {
+	// Only the entries of the requested index may be visited: they are contiguous and all
+	// start with this prefix.
+	indexPrefix := fmt.Sprintf(secondaryIdxRangePrefixFormat, indexName, "")
+	inIndex := func() bool { return it.Valid() && strings.HasPrefix(it.Key(), indexPrefix) }
+
+	switch req.ComparisonType {
+	case proto.KeyComparisonType_LOWER:
 		it.SeekLT(searchKey)
-	} else {
+	case proto.KeyComparisonType_FLOOR:
+		it.SeekGE(searchKey)
+		if !inIndex() {
+			// Nothing at or after the search key in this index: the floor is the last entry before it
+			it.SeekLT(searchKey)
+		}
+	default:
 		// For all the other cases, we set the iterator on >=
 		it.SeekGE(searchKey)
 	}
 
-	for it.Valid() {
+	for inIndex() {
 		itKey := it.Key()
 		primaryKey, secondaryKey, err = secondaryIndexPrimaryAndSecondaryKey(itKey)
 		if err != nil && !errors.Is(err, errFailedToParseSecondaryKey) {
@@ -391,5 +404,6 @@ func doSecondaryGet(db kv.DB, req *proto.GetRequest) (primaryKey string, seconda
 		}
 	}
 
-	return primaryKey, secondaryKey, err
+	// Walked out of the index without finding a match
+	return "", "", nil
 }
